@@ -333,6 +333,8 @@ def inputs(seed=0, ny=20, nx=26, variant="mask"):
     variant "mask": monoband pair, left mask with one invalid and one nodata pixel;
             "multi": two-band pair (bands r, g) with the same mask;
             "nan":   monoband pair WITHOUT mask whose samples contain NaN / inf (legal: only an all-NaN image is refused)
+            "bare":  the "mask" pair built by hand with the fewest attributes a run needs (no crs / transform, one
+                     attribute of the caller's own): whatever a run adds to, or drops from, the attributes shows
     """
     from mc.drivers import datasets as D  # pylint: disable=import-outside-toplevel
 
@@ -351,17 +353,25 @@ def inputs(seed=0, ny=20, nx=26, variant="mask"):
         left[12, 20] = np.inf
         right[9, 9] = np.nan
         return D.image(left, disp=(-4, 4)), D.image(right, disp=None)
-    return D.image(left, disp=(-4, 4), msk=msk), D.image(right, disp=None)
+    L, R = D.image(left, disp=(-4, 4), msk=msk), D.image(right, disp=None)
+    if variant == "bare":
+        for ds in (L, R):
+            for k in ("crs", "transform"):
+                ds.attrs.pop(k, None)
+            ds.attrs["callers_own"] = "kept"
+    return L, R
 
 
 def variant_of(name):
     return "multi" if name.startswith("B") else "mask"
 
 
-def run_pipeline(name, machine=None, do_check=True, shared=None, variant=None):
+def run_pipeline(name, machine=None, do_check=True, shared=None, variant=None, cfgs=None):
     """
     returns dict of digests; raises on error.  `shared`: dict variant -> (left, right) datasets reused by every run of
-    a history (a user runs several pipelines on the datasets loaded once)
+    a history (a user runs several pipelines on the datasets loaded once).  `cfgs`: dict name -> the configuration
+    dictionary the first run of that pipeline checked and used; later runs hand the very same dictionary to
+    pandora.run again (a user keeps the checked configuration and repeats the run)
     """
     from mc.drivers import datasets as D  # pylint: disable=import-outside-toplevel
     from mc.drivers import pipeline as P  # pylint: disable=import-outside-toplevel
@@ -374,9 +384,12 @@ def run_pipeline(name, machine=None, do_check=True, shared=None, variant=None):
     else:
         L, R = inputs(variant=variant)
     L0, R0 = L.copy(deep=True), R.copy(deep=True)
-    obs = P.run_observed(L, R, pipelines()[name], machine=machine, do_check=do_check, observe=True, snapshot=("disp",))
+    obs = P.run_observed(L, R, pipelines()[name], machine=machine, do_check=do_check, observe=True, snapshot=("disp",),
+                         cfg=(cfgs or {}).get(name))
     if obs.error:
         raise obs.error[1]
+    if cfgs is not None:
+        cfgs.setdefault(name, obs.cfg)
     pre = None
     for st in obs.steps:
         if st["step"].split(".")[0] == "disparity" and st["scale"] == 0:
@@ -485,6 +498,7 @@ def run_history(case):
     ref = case["ref"]
     machines = {"M1": PandoraMachine(), "M2": PandoraMachine()}
     shared = {}  # the datasets are built once per history and handed to every check / run of it
+    cfgs = {} if case.get("samecfg") else None  # ... and so is the checked configuration of each pipeline
     n = 0
     seen_other = False
     nontrivial = False
@@ -509,7 +523,7 @@ def run_history(case):
             seen_other = True
             continue
         try:
-            got = run_pipeline(pname, machine=m, shared=shared)
+            got = run_pipeline(pname, machine=m, shared=shared, cfgs=cfgs)
         except Exception as e:  # pylint: disable=broad-except
             if observed:
                 viol.append({"clause": "run-independent-of-history",
@@ -537,7 +551,7 @@ def run_history(case):
             viol.append({"clause": "inputs-unmodified", "key": f"C18/inputs-modified/{pname}",
                          "detail": f"word {case['word']}: run of {pname} modified its inputs: {got['inputs']}"})
         seen_other = True
-    return {"n": n, "sigs": [f"H|{case['word']}"] if nontrivial else [], "viol": viol[:6],
+    return {"n": n, "sigs": [f"H|{case['word']}|{bool(case.get('samecfg'))}"] if nontrivial else [], "viol": viol[:6],
             "trivial": 0 if nontrivial else 1}
 
 
@@ -581,9 +595,18 @@ def spaces(tier, seed):
                 fresh.append({"kind": "fresh", "P": P, "word": list(w), "ref": ref})
     untouched = [{"kind": "untouched", "pipe": nm, "variant": v} for nm in names[:8] for v in ("mask", "nan")]
     untouched += [{"kind": "untouched", "pipe": nm, "variant": "multi"} for nm in ("B0", "B1")]
+    untouched += [{"kind": "untouched", "pipe": nm, "variant": "bare"} for nm in ("P0", "P2", "Q1")]
+    samecfg = []
+    for P in names:
+        for w in ([f"rM1{P}"] * 2, [f"rM1{P}"] * 3, [f"rM1{P}", "rM2" + P, f"rM1{P}"],
+                  [f"rM1{P}", f"cM1{P}", f"rM1{P}"]):
+            # M2 runs the same pipeline name: same dictionary on a brand-new machine, then back on M1
+            samecfg.append({"kind": "hist", "P": P, "word": list(w), "ref": ref, "samecfg": True})
     return [
         {"name": "inputs untouched: every pipeline x input variant (mask / NaN-inf samples without mask / multiband)",
          "level": 1, "cases": untouched, "chunk": 1},
+        {"name": "repeated runs handing the caller's own checked configuration dictionary to every run", "level": 1,
+         "cases": samecfg, "chunk": 2},
         {"name": "histories, each word in a process of its own (other pipelines first, then P)", "level": 1,
          "cases": fresh, "chunk": 1},
         {"name": "E4: prange kernels, all iteration orders + conflict detection + compiled conformance", "level": 0,
